@@ -67,7 +67,7 @@ REQUIRED = ["io_roundtrips", "io_tiff", "io_npy", "io_nrrd", "io_uint_to_float",
             "io_float_stacks_holding_exactly_one",
             "transformer_reused", "rejected_calls_before_raster", "rasters_interleaved",
             "raster_one_slice_saved_and_read", "io_older_gray_front_end",
-            "resolution_arrays_edited_after_construction",
+            "resolution_arrays_edited_after_construction", "io_relative_name_then_chdir",
             "tap_get_samplers"]
 FLOOR = {"quick": 450, "thorough": 45000}
 SHARDS = {"quick": 8, "thorough": 16}
@@ -244,6 +244,37 @@ def check_io(ctx, case, tmp):
     i, j, k = (int(v) // 2 for v in shape4[:3])
     if not np.array_equal(np.asarray(st[i, j, k]), b[i, j, k]):
         return ctx.violation("indexing-wrong", "stack[i, j, k] differs from get_full()[i, j, k]", case)
+    if case["seed"] % 5 == 2:
+        # the stack opened by a relative name; the caller then changes directory (to where another
+        # file of that name lies) before it looks at the voxels: they are those of the file opened
+        old_cwd = os.getcwd()
+        other = os.path.join(tmp, "elsewhere")
+        os.makedirs(other, exist_ok=True)
+        try:
+            os.chdir(tmp)
+            rel = os.path.basename(f)
+            if fmt.startswith("tiff"):
+                save_tiff(np.zeros((2, 2, 2), dtype=np.uint8), os.path.join(other, rel))
+            else:
+                np.save(os.path.join(other, rel), np.zeros((2, 2, 2, 1), dtype=np.uint8)) \
+                    if fmt == "npy" else None
+            st_rel = read_imgs(rel, **kw)
+            os.chdir(other)
+            try:
+                late = np.asarray(st_rel.get_full())
+            except Exception as e:
+                return ctx.violation("values-changed",
+                                     f"{fmt}: a stack opened as {rel!r} could not be looked at after "
+                                     f"the caller changed directory: {type(e).__name__}: "
+                                     f"{str(e)[:80]}", case)
+            ctx.count("io_relative_name_then_chdir")
+            if late.shape != b.shape or not np.array_equal(late, b, equal_nan=True):
+                return ctx.violation("values-changed",
+                                     f"{fmt}: a stack opened as {rel!r}, looked at after the caller "
+                                     f"changed directory, has shape {late.shape} / other voxels than "
+                                     f"the file that was opened ({b.shape})", case)
+        finally:
+            os.chdir(old_cwd)
     if shape4[3] == 1 and case["seed"] % 4 == 1:
         # the older single-channel front end the library still exports: the same voxels without
         # the channel axis, through get_full, shape and indexing
